@@ -15,7 +15,7 @@ def holdoutInit : List Op :=
     s (set "available" (size .tr)),
     s (set "skip" (max (div (mul 64 (var "available") (sub 32 (lit 100) (var "perc"))) (lit 100)) (lit 1))),
     forDown "i" (sub 64 (var "available") (lit 1)) (ge (var "i") (var "skip"))
-      [swap .tr (var "i") (sup (add 64 (var "i") (lit 1)))],
+      [set "curr" (var "i"), set "rand" (sup (add 64 (var "i") (lit 1))), swap .tr (var "curr") (var "rand")],
     s (set "from" (var "skip")),
     s (copyBack .tr (var "from") (size .tr) .va),
     s (erase .tr (var "from") (size .tr)),
@@ -41,7 +41,7 @@ def shakeImpl : List Op :=
   [ s (call .moveToValidation none),
     s (note "avg_v" "average_age_difficulty(validation_)"),
     s (note "weight_sum" "accumulate(validation_, weight)"),
-    s (note "s" "double(validation_.size())"),
+    s (note "s" "double"),
     s (note "ratio" "double"),
     s (note "target_size" "double"),
     s (note "k" "double"),
@@ -83,10 +83,13 @@ def targetSize : FE :=
 
 /-- `static_cast<uintmax_t>(v.difficulty) + static_cast<uintmax_t>(v.age) * v.age * v.age` -/
 def weight : WE :=
-  .add64 (.cast64 .diff) (.mul64 (.mul64 (.cast64 .age) (.cast64 .age)) (.cast64 .age))
+  .add64 .diff (.mul64 (.mul64 (.cast64 .age) (.cast64 .age)) (.cast64 .age))
 
 /-- `weight_sum` -/
 def weightSum : AccE := ⟨.va, 64, 0, weight⟩
+
+/-- the predicate handed to `std::partition` (true = NOT selected), canonical text -/
+def selectPred : String := "p1=(double(weight(e)) * k); prob=min(p1, 1.0); return (boolean(prob) == false)"
 
 /-- the overloads of `dataframe::push_back` taking an example (parameter types) -/
 def pushBackOverloads : List String := ["const vita::dataframe::example &"]
